@@ -676,6 +676,10 @@ def check(ctx):
                                 "polarity, and the level follows the depth on every path of the lookups (a record inserted with a wrong level is "
                                 "never found again)")}):
         C01.r3(ctx)
+    from specs import C18
+    with ctx.shared({"C18.R3": ("C02.R7", "element arrays under allocation failure: a failed append leaves length and array untouched, a failed shrink "
+                                "puts the element back - an error return never changes the set")}):
+        C18.r3(ctx, retsets)
     ctx.not_decided("that trie_insert / trie_remove preserve the path invariant (every node on the path spelled by its prefix bits, "
                     "parents never longer than children) for every insertion/removal history")
     ctx.not_decided("pfx_table_del_elem / pfx_table_append_elem array arithmetic beyond C18.R3's restore pair")
